@@ -19,6 +19,7 @@ def bind_repo():
     import logging
 
     logging.getLogger("aioswitcher").addHandler(logging.NullHandler())
+    logging.getLogger("asyncio").addHandler(logging.NullHandler())  # e.g. "socket.send() raised exception" on a dropped connection
 
     got = os.path.dirname(os.path.abspath(aioswitcher.__file__))
     if got != os.path.join(os.path.abspath(src), "aioswitcher"):
